@@ -130,7 +130,14 @@ impl Drop for AsyncWritableFile {
     fn drop(&mut self) {
         let mut content = vec![];
         swap(&mut content, self.content.get_mut());
-        futures::executor::block_on(self.fs.write()).files.insert(
+        let mut handle = futures::executor::block_on(self.fs.write());
+        match handle.files.get(&self.destination) {
+            Some(file) if file.file_type == VfsFileType::File => {}
+            // The file was removed (or replaced by a directory) while this handle was open:
+            // as with an unlinked file, there is nothing left to publish to.
+            _ => return,
+        }
+        handle.files.insert(
             self.destination.clone(),
             AsyncMemoryFile {
                 file_type: VfsFileType::File,
